@@ -407,11 +407,14 @@ def chain(index, rep, db):
                     and isinstance(c_.func.value, _ast.Call) and dotted(c_.func.value.func) == "Optimizer" and "__init__" in ocls):
                 return None
             ctor = args_by_ref_names(c_.func.value, ocls["__init__"], ["consts_for_optimizer", "time_consts"])
-            meth = args_by_ref_names(c_, ocls[c_.func.attr], ["consts_for_optimizer", "time_consts"])
-            if None in ctor or None in meth:
+            if None in ctor or [norm_src(x) for x in ctor] != [C_, T_]:
                 return None
-            if [norm_src(x) for x in ctor] != [C_, T_] or [norm_src(x) for x in meth] != [C_, T_]:
-                return None
+            # the solve routine is given the same two tables again - or takes none (it uses the ones the Optimizer was constructed with)
+            mp_ = [a.arg for a in ocls[c_.func.attr].args.args][1:]
+            if "consts_for_optimizer" in mp_ or "time_consts" in mp_ or len(mp_) >= 2:
+                meth = args_by_ref_names(c_, ocls[c_.func.attr], ["consts_for_optimizer", "time_consts"])
+                if None in meth or [norm_src(x) for x in meth] != [C_, T_]:
+                    return None
             return norm_src(c_)
 
         for m_, v_ in zip(a4[1], a4[2]):
